@@ -35,5 +35,5 @@ func VerifC18_SBM() {
 		}
 		return n
 	}
-	c18RunMem(comp.Tick, top, ctrl, &comp.State.ControlState, inflight, 30, verifrt.Bound("data-reads", 1, 2))
+	c18RunMem(comp.Tick, top, ctrl, &comp.State.ControlState, inflight, 30, verifrt.Bound("data-reads", 1, 2), 2)
 }
